@@ -262,6 +262,16 @@ HANDWRITTEN = [
     "{ RdV = -(1U + 2); }", "{ RdV = 1U + RsV; }", "{ RddV = RsV + RssV; }", "{ RdV = (RsV > RtV) == (RsV < RtV); }",
     "{ RdV = 1U + 2; }", "{ RddV = 1LL + RsV; }", "{ RdV = ~(2U - 1); }",
     "{ i++; k++; }", "{ int32_t a1 = 0; int32_t b1 = 0; a1++; b1++; RdV = a1 + b1; }", "{ i++; j++; k++; RdV = i; }",
+    # every attribute in one part, the explicit predicate write first / in the middle / last
+    "{ PdV = RsV; if ((PvN & 1)) { mem_store_u32(RsV, RtV); RdV = mem_load_u32(RsV + 4); JUMP(riV); } P2 = RtV; }",
+    "{ P2 = RtV; PdV = RsV; if ((PvN & 1)) { mem_store_u32(RsV, RtV); RdV = mem_load_u32(RsV + 4); JUMP(riV); } }",
+    "{ PdV = RsV; if ((PvN & 1)) { P1 = 1; mem_store_u32(RsV, RtV); RdV = mem_load_u32(RsV + 4); JUMP(riV); } P3 = 0; P0 = RtV; }",
+    "{ if (PuN) { JUMP(riV); } EA = RsV; RdV = mem_load_s8(EA); mem_store_u8(EA, RtV); PeV = 1; P0 = 1; P1 = 1; P2 = 1; P3 = 1; }",
+    # the same operand letter read plainly and as .new in one part
+    "{ RdV = PvV; if ((PvN & 1)) { JUMP(riV); } }", "{ RdV = PuN; ReV = PuV; }", "{ if (PtV) { RdV = PtN; } }", "{ RdV = NsN + RsV; }",
+    # register ++/-- and statement-expressions ending in a register, constant ?: dropping a plain register
+    "{ RxV++; }", "{ RdV = ({ RxV = 1; RsV; }); }", "{ RdV = 1 ? RsV : RtV; }", "{ RdV = 0 ? RsV : RtV; }", "{ RdV = (2 > 1) ? RtV : RsV; }",
+    "{ RddV = ({ RxV = 1; RssV; }); }", "{ RddV = 1 ? RssV : RttV; }",
 ]
 
 
